@@ -322,6 +322,7 @@ def oracle(case, obs):
     n_init = 0
     max_t = None                # latest event / time-changed time of this replication
     starts = 0
+    prev_quiet = True
     for ent in obs["log"]:
         kind = ent[0]
         if kind == "ntf":
@@ -329,7 +330,8 @@ def oracle(case, obs):
             seg.append([nm, ts])
             if mon is None:
                 return ("notification-outside-replication", f"{nm}@{ts} without an initialized replication"), facts
-            if pending_tc is not None and not (nm == "warmup" and ts == pending_tc):
+            if pending_tc is not None and not (nm == "warmup" and ts == pending_tc) and nm != "stopping":
+                # (STOPPING comes from the thread that calls stop() and may fall anywhere)
                 return ("time-changed-without-event", f"TIME_CHANGED@{pending_tc} followed by {nm}@{ts}, not by the event"), facts
             if nm == "warmup":
                 pending_tc = None
@@ -370,13 +372,13 @@ def oracle(case, obs):
                 return ("accept-refuse-rule-violated", f"{c} in state {rs}/{ps} clock {clk} end {end}: {r}, documented rule says {exp}"), facts
             if r == "refused":
                 facts["refusal"] = True
-                if (rs2, ps2, clk2, np2, live2) != (rs, ps, clk, npend, live):
+                if prev_quiet and (rs2, ps2, clk2, np2, live2) != (rs, ps, clk, npend, live):
                     return ("refused-command-changed-state", f"{c}: ({rs},{ps},{clk},{npend},{live}) -> ({rs2},{ps2},{clk2},{np2},{live2})"), facts
-                if seg:
+                if seg and prev_quiet:
                     return ("refused-command-notified", f"{c}: {seg[:3]}"), facts
             else:
                 facts["accepted"] += 1
-            if pending_tc is not None:
+            if pending_tc is not None and quiet is not None:
                 return ("time-changed-without-event", f"TIME_CHANGED@{pending_tc} not followed by an event"), facts
             if c[0] == "init" and r == "ok":
                 n_init += 1
@@ -402,7 +404,7 @@ def oracle(case, obs):
                     return ("accepted-start-not-announced", f"{c} accepted without a STARTING notification"), facts
             if clk2 < clk and c[0] != "init":
                 return ("clock-went-backwards", f"{c}: clock {clk} -> {clk2}"), facts
-            bad = check_quiescent(sn, mon)
+            bad = check_quiescent(sn, mon) if quiet is not None else None
             if bad:
                 return (bad[0], f"after {c}: {bad[1]}"), facts
             if ps2 == "ENDED":
@@ -410,6 +412,7 @@ def oracle(case, obs):
                 if clk2 != end and rs == "STARTED":
                     pass
             rs, ps, clk, npend, live = rs2, ps2, clk2, np2, live2
+            prev_quiet = quiet is not None
             seg = []
     if obs.get("alive", 0) != (1 if ps in ("INITIALIZED", "STARTED") else 0):
         return ("run-thread-still-alive" if obs.get("alive") else "run-thread-missing",
@@ -512,7 +515,9 @@ def coq_compare(scratch, cases, obs, shard=400):
     codes = [0] * len(cases)
     idxs = []
     for i, o in enumerate(obs):
-        if representable(o) is None:
+        if cases[i].get("rapid"):
+            codes[i] = 5          # commands not issued at quiescence: outside M1, judged by the oracle only
+        elif representable(o) is None:
             idxs.append(i)
         else:
             codes[i] = 4
@@ -726,7 +731,21 @@ def rapid_alternation_case(n):
     cmds = [["init", 0, 0, 4000000]]
     for _ in range(n):
         cmds += [["start"], ["stop"]]
-    return {"kind": "seq", "clock": "float", "strategy": "pause", "prog": prog, "cmds": cmds, "src": "alternation"}
+    return {"kind": "seq", "clock": "float", "strategy": "pause", "prog": prog, "cmds": cmds, "src": "alternation",
+            "rapid": True}
+
+
+def rapid_bounded_case(n):
+    """bounded runs that stop by themselves, each followed at once by start() and an immediate stop();
+    every handler takes 1 ms, so the clock moves about one quarter unit per millisecond"""
+    prog = [[["sched", ["abs", 1], 5, 1]], [["sched", ["rel", 1], 5, 1]]]
+    cmds = [["init", 0, 0, 4000000]]
+    t = 0
+    for _ in range(n):
+        t += 60
+        cmds += [["runupto", t - 52], ["start"], ["stop"]]
+    return {"kind": "seq", "clock": "float", "strategy": "pause", "prog": prog, "cmds": cmds, "src": "alternation",
+            "rapid": True, "slow_handler_ms": 1}
 
 
 # ============================================================================ main
@@ -763,6 +782,7 @@ def main(tier: str) -> int:
     for i in range(n_rand):
         cases.append(gen_random_case(rng, i, allow_stop=(i < n_stop)))
     cases.append(rapid_alternation_case(15 if tier == "quick" else 100))
+    cases.append(rapid_bounded_case(3 if tier == "quick" else 12))
     cases += exhaustive_cases(tier)
     scs = [s for s in overlap_scenarios(tier)]
     try:
